@@ -16,8 +16,7 @@ Extra term constructors on top of sa/terms.py:
 from __future__ import annotations
 
 import ast
-from dataclasses import dataclass, field
-from fractions import Fraction
+from dataclasses import dataclass
 from typing import Callable, Optional
 
 from ..model import AnalysisError, dotted, last_attr
@@ -50,6 +49,11 @@ class EnvNorm(Normalizer):
                     self.reads.append(n.slice.value)
                     return Poly.atom("§" + n.slice.value)
                 raise AnalysisError("coefficient mapping indexed with a non-literal key")
+            # indexing commutes with scaling:  (c*x)[i] == c*(x[i])
+            if base.is_monomial() and not base.is_const():
+                (mono, coef), = base.terms.items()
+                if len(mono) == 1 and mono[0][1] == 1:
+                    return Poly.const(coef) * Poly.atom(f"{mono[0][0]}[{self._slice_key(n.slice)}]")
         return super().norm(n)
 
     def _call(self, n: ast.Call) -> Poly:
@@ -90,14 +94,6 @@ class PathResult:
     env: dict[str, Poly]
     value: Optional[Poly]  # returned term (None for `return` without value)
     stmt: Optional[ast.Return]
-
-
-@dataclass
-class Event:
-    """An expression statement / call of interest observed on a path (see `watch`)."""
-    node: ast.AST
-    env: dict[str, Poly]
-    conds: list[tuple[ast.expr, bool]]
 
 
 class SymExec:
@@ -247,7 +243,3 @@ def cond_matches(conds: list[tuple[ast.expr, bool]], pred: Callable[[ast.expr], 
         if r is not None:
             return (r != neg) == taken
     return None
-
-
-def frac(x) -> Fraction:
-    return Fraction(x)
